@@ -677,7 +677,9 @@ def run(c):
         "history series end at t0",
         "pymoca turns `delay(expr, tau)` into delay states/arguments (not modelled; observed through get_var)",
     ]
-    c.prove()
+    from .translate_c16 import gen_delay_rows
+
+    c.prove(extra=gen_delay_rows(c))  # + delay buffer / residuals / delayed-feedback rows translated from the source
     rng = c.rng
     n = c.n(40, 500)
     batch = [opt_instance(c, spec, rng) for spec in corpus()]
@@ -712,7 +714,9 @@ def run(c):
 
 
 def replay(c, rp):
-    c.prove()
+    from .translate_c16 import gen_delay_rows
+
+    c.prove(extra=gen_delay_rows(c))
     for f in (rp.get("failures", []) + rp.get("correspondence_disagreements", []))[:5]:
         print("replaying", f["what"])
         spec = f["case"].get("spec")
